@@ -488,6 +488,8 @@ var c10Corpus = []string{
 	// a subtraction written where a range was expected whose class starts with a literal ']' and holds parentheses / brackets:
 	// the capture pre-scan must skip it as a unit (a5090c5: it closed the outer class at the first ']' and lost step with the main pass)
 	`(?<1>a)(b)`, `(a)(?<1>b)`, `(a)(?<n>b)(?<5>c)`, `(?<2>a)(b)(?<n>c)`, `(?<2>x)(?<2>y)(b)`, `(?<2>x)(?'2'y)(?<2>z)(w)`,
+	// digits that start with '0' are not filed by the pre-scan (5afce6b)
+	`(?<x>q)(?<02>b)(a)`, `(?<x>q)(?<02>b)(a)(c)`, `(?<01>b)(a)`, `(?<01>b)(?<1>a)(c)`, `(?<x>q)(?'02'b)(a)`, `(?<x>q)(?<02-x>b)(a)`, `(?<x>q)(?<00>b)(a)`, `(a)(?<01>b)\1`,
 	`(?n:[a-[](]])(b)`, `(?n:[a-[](]])(?<x>b)(c)`, `[a-[](]](b)\1`, `([a-[])]])`, `(?x:[a-[]#]])(b)`, `[a-[]b]]`, `[a-[^]]]`, `[a-[][]](b)`, `[a-[](]`, `[a-[](]]x]`, `(?i:[a-[](]])(b)`, `[\p-x-[](]](b)`,
 }
 
@@ -498,6 +500,7 @@ var c10CorpusDialect = []string{
 	`\q`, `\c`, `\x4`, `\u00`, `a{2}`, `(?i)[\W]`, `(?i)\w`, `(?i)[k\d]`,
 	// (?P=name) as the condition parenthesis of (?( ... ): not a back-reference there (4f8aca1: it left the conditional without a condition child)
 	// digits as a group name under MaintainCaptureOrder / RE2: the main pass reads them as the name the pre-scan filed (2b27550)
+	`(?<x>q)(?<02>b)(a)`, `(?P<x>q)(?<02>b)(a)(c)`, `(?P<02>q)(?<02>b)(?<2>c)(a)`,
 	`(?<2>x)(?P<2>y)(?<2>z)(w)`, `(?<1>a)(b)`, `(a)(?<1>b)`, `(a)(?<n>b)(?<5>c)`, `(?<2>a)(b)(?<n>c)`, `(?<2>x)(?<2>y)(b)`, `(?<3>a)(?<-3>b)`, `(?<a>x)(?<2-a>y)(z)`, `(?<0>a)`, `(?<2>x)(?P<2>y)\k<2>(w)\2`,
 	`(?P<a>x)(?(?P=a)b)`, `(?P<a>x)(?(?P=a)b|c)`, `(?P<a>x)(?(?P=a)b|c|d)`, `(?P<a>x)(?(?P=a))`, `(?(?P=a)b)`, `(?P<a>x)(?(a)(?P=a)b)`, `(?P<a>x)(?((?P=a))b)`,
 }
